@@ -399,6 +399,42 @@ CLAIMED = {
 
 NOT_APPLICABLE = {}
 
+# additions of the sixth/seventh seeding rounds, appended to the level text / replacing the note
+EXTRA_TEXT = {
+ 'C13': ' Since round 6: the same two exchange functions on the PN531, PN533, RC-S956 and ACR122 driver classes (their '
+        'overridden Type 1 Tag paths for the firmware-supported commands included); the kind of error is right for the '
+        'pn53x family as well - an RF error is raised only if the host link did not fail with anything but a read timeout; '
+        'the real rcs380 Chipset.send_command over a USB transport that delivers 1..300 arbitrary octets per read or '
+        'fails, and the real nfc.clf.transport.USB read/write over a libusb handle whose transfers fail with any USBError '
+        '(only IOError escapes). Bounded and not counted: the udp driver over arbitrary datagrams of at most 8 octets.',
+ 'C01': ' Emulated Type 3 Tag (bounded, not counted): the reader-side Type3Tag.write_to_ndef_service / read_from_ndef_service '
+        'against the real Type3TagEmulation.process_command over a loopback link refine the ghost tag commands for 1..3 '
+        'blocks per command with any block numbers (8/15 blocks with numbers below 256). get_capacity of Type 1 and Type 2 '
+        '(what the setter compares with) is proved to fit the free octets of the layout.',
+ 'C08': ' get_capacity of Type 1 and Type 2: tag octet + length field + capacity fit the free octets between the NDEF TLV '
+        'and the end of the data area, so "length <= capacity" means "inside the data area".',
+ 'C09': ' Termination wakes every waiter (notify_all on each condition, ServiceDiscovery.shutdown for resolving threads); '
+        'sockets created after termination end with Error(ESHUTDOWN) instead of waiting.',
+ 'C16': ' The frontend model raises all four documented CommunicationError subclasses and returns None from exchange() once '
+        'a sense() found nothing; sequence contracts on one Type 2 Tag object (READ met NAK / re-activation / tag gone, then '
+        'read, presence check or write) end as documented.',
+ 'C07': ' The real Initiator.activate / Target.activate against a peer that answers anything return general bytes or None '
+        'and raise nothing; ServiceAccessPoint.shutdown (link thread) reaches no wait() without timeout.',
+ 'C14': ' For Type A targets that are neither ISO-DEP nor NFC-DEP (chip CRC check off) data longer than two octets returned '
+        'by send_cmd_recv_rsp has passed check_crc_a (pn532, rcs380).',
+ 'C18': ' A failing mute() leaves no stale target (every raises clause of sense() says self.target is None); the card '
+        'emulation loop ends when the link broke (exchange() returned None) and never processes a missing command.',
+ 'C05': ' The C11 codec contracts (I/RR/RNR encode, decode at any offset, aggregation round trips) are obligations here too.',
+ 'C06': ' The C11 codec contracts (I PDU decode at any offset of an aggregated frame, round trips) are obligations here too.',
+ 'C17': ' The C11 codec contracts (UI/SNL encode and decode at any offset) are obligations here too.',
+}
+EXTRA_NOTE = {
+ 'C13': 'Assumed: the payload length a chip returns in a well-framed response with the matching response code (status '
+        'words, one octet per register); the PN532/PN533 register-level Type 1 Tag emulation (string based bit reversal) '
+        'and the CRC check are assumed total. Not covered: arygon (thin subclass), the sense/listen paths, the '
+        'listen-mode TT3 path. Log arguments are not evaluated in this property (path budget).',
+}
+
 def main():
     props = [json.loads(l)['id'] for l in open(os.path.join(HERE, 'properties.jsonl'))]
     checks = []
@@ -413,8 +449,9 @@ def main():
             'evidence_file': 'evidence/%s.json' % pid,
             'replay_cmd_template': './check %s --replay {path}' % pid,
             'engine': 'pyvc',
-            'level_claimed': {'category': c['category'], 'text': c['text'], 'design_ref': c['design_ref']},
-            'level_note': c['note'],
+            'level_claimed': {'category': c['category'], 'text': c['text'] + EXTRA_TEXT.get(pid, ''),
+                              'design_ref': c['design_ref']},
+            'level_note': EXTRA_NOTE.get(pid, c['note']),
             'technique': c['technique'],
         })
     na = []
